@@ -8,6 +8,7 @@
     tokens: (I<sigint_event><disable_start_stop>  (F<hide>  (C<hide><keep>  (B  (N  (M<k>  )   context enter / leave
             q0 q1 q2 q3 (request: returnsNoRead, returnsAfterRead, raisesAfterRead, keyboardInterrupt)
             r (render)  t (event trigger)  T (threadsafe trigger)  ! (raise)
+            et<k> ef<bit> es<handler>  (the environment changes tty attributes / status flags / SIGINT handler)
   reply: one snapshot per enter/operation/exit, then "| raised=<0|1>"
 -/
 import Curtsies.Model.Contexts
@@ -15,14 +16,17 @@ namespace Curtsies.Driver.CtxSim
 open Curtsies.Contexts
 
 inductive ATerm where
-  | base | given (k : Nat) | cb (a : ATerm) | nss (a : ATerm)
+  | base | given (k : Nat) | cb (a : ATerm) | nss (a : ATerm) | env (k : Nat) (a : ATerm)
   deriving Repr
 
 def ATerm.enc : ATerm → String
   | .base => "base" | .given k => "g" ++ toString k
   | .cb a => "cb(" ++ a.enc ++ ")" | .nss a => "nss(" ++ a.enc ++ ")"
+  | .env k a => "env" ++ toString k ++ "(" ++ a.enc ++ ")"
 
-def ops (nb : Nat) : TtyOps ATerm := { cbreak := .cb, noStartStop := .nss, nonblock := fun n => n ||| nb }
+/-- `envFl k` toggles bit value k of the status flags (the harness passes the numeric flag, e.g. O_APPEND) -/
+def ops (nb : Nat) : TtyOps ATerm :=
+  { cbreak := .cb, noStartStop := .nss, nonblock := fun n => n ||| nb, envTty := .env, envFl := fun k n => n ^^^ k }
 
 def decBit (c : Char) : Option Bool := if c == '1' then some true else if c == '0' then some false else none
 
@@ -36,11 +40,22 @@ def decCtx (tok : String) : Option (Ctx ATerm) :=
   | '(' :: 'M' :: k => (String.ofList k).toNat?.map fun k => .termmode (.given k)
   | _ => none
 
+def encHandler : Handler → String
+  | .dflt => "d" | .ign => "i" | .sigDfl => "D" | .user n => "u" ++ toString n | .input id => "I" ++ toString id
+
+def decHandler (s : String) : Option Handler :=
+  if s == "d" then some .dflt else if s == "i" then some .ign else if s == "D" then some .sigDfl
+  else if s.startsWith "u" then (s.drop 1).toString.toNat?.map Handler.user else none
+
 def decOp (tok : String) : Option Op :=
   if tok == "q0" then some (.request .returnsNoRead) else if tok == "q1" then some (.request .returnsAfterRead)
   else if tok == "q2" then some (.request .raisesAfterRead) else if tok == "q3" then some (.request .keyboardInterrupt)
   else if tok == "r" then some .render else if tok == "t" then some .mkTrigger
-  else if tok == "T" then some .mkThreadsafeTrigger else none
+  else if tok == "T" then some .mkThreadsafeTrigger
+  else if tok.startsWith "et" then (tok.drop 2).toString.toNat?.map Op.envTty
+  else if tok.startsWith "ef" then (tok.drop 2).toString.toNat?.map Op.envFl
+  else if tok.startsWith "es" then (decHandler (tok.drop 2).toString).map Op.envSigint
+  else none
 
 /-- parse up to the closing ")" of the current level (or the end); returns the body and what follows -/
 def parseBody : Nat → List String → Option (Body ATerm × List String)
@@ -61,13 +76,6 @@ def parseBody : Nat → List String → Option (Body ATerm × List String)
       let o ← decOp tok
       let (b, rest1) ← parseBody f rest
       pure (.op o b, rest1)
-
-def encHandler : Handler → String
-  | .dflt => "d" | .ign => "i" | .user n => "u" ++ toString n | .input id => "I" ++ toString id
-
-def decHandler (s : String) : Option Handler :=
-  if s == "d" then some .dflt else if s == "i" then some .ign
-  else if s.startsWith "u" then (s.drop 1).toString.toNat?.map Handler.user else none
 
 def encObs (o : Obs ATerm) : String :=
   "tty=" ++ o.tty.enc ++ ";fl=" ++ toString o.fl ++ ";sig=" ++ encHandler o.sigint ++ ";wake=" ++
